@@ -285,7 +285,48 @@ func c16Check(ctx *core.Ctx, kind, in string) {
 				return
 			}
 		}
+		// the stream that was read with peeks must stay at end-of-input as well
+		for k := 0; k < 4; k++ {
+			var t lex.Token
+			if (k+r.Intn(2))%2 == 0 {
+				t = l.Next()
+			} else {
+				t = l.Peek()
+			}
+			if t.Typ != lex.TEOF {
+				ctx.Violate("c16:token-after-end:peeked-stream", "input %q: %v %q is returned after the end of a stream that was read with interleaved Peeks", in, t.Typ, t.Val)
+				return
+			}
+		}
 	})
+	// all-peek script: Peek before every single Next, and only before the first one
+	for _, mode := range []int{0, 1} {
+		ctx.Call("Lexer.Peek", func() {
+			l := lex.Lex(in)
+			for i, want := range toks {
+				if mode == 0 || i == 0 {
+					if p := l.Peek(); p != want {
+						ctx.Violate("c16:peek-differs", "input %q: Peek before token %d returned %v %q, the stream has %v %q", in, i, p.Typ, p.Val, want.Typ, want.Val)
+						return
+					}
+				}
+				if got := l.Next(); got != want {
+					ctx.Violate("c16:peek-disturbs", "input %q: token %d is %v %q after peeking, %v %q without", in, i, got.Typ, got.Val, want.Typ, want.Val)
+					return
+				}
+			}
+			for k := 0; k < 3; k++ {
+				if t := l.Next(); t.Typ != lex.TEOF {
+					ctx.Violate("c16:token-after-end:peeked-stream", "input %q: %v %q is returned by Next after the end of a stream that was read with Peeks", in, t.Typ, t.Val)
+					return
+				}
+				if t := l.Peek(); t.Typ != lex.TEOF {
+					ctx.Violate("c16:token-after-end:peeked-stream", "input %q: %v %q is returned by Peek after the end of a stream that was read with Peeks", in, t.Typ, t.Val)
+					return
+				}
+			}
+		})
+	}
 	if ctx.Index()%1013 == 0 {
 		ctx.Sample(kind, in)
 	}
